@@ -342,6 +342,8 @@ func main() {
 			}
 		}
 	}
+	// ---- Solve-level: FinalizeScheduling / TruncateInstanceTypes / ToNodeClaim on real scheduler results (solve.go)
+	solveCases(c)
 	_ = metav1.Now
 	_ = cloudprovider.InstanceTypes{}
 	_ = sort.Strings
